@@ -36,7 +36,7 @@ MANIFEST = {
                      "WorkflowService message nothing may change (method filter)."),
 }
 MINE = {
-    "C12": {"untranslated", "error"},
+    "C12": {"untranslated", "error", "chain"},
     "C14": {"sa", "sawf", "error"},
 }
 OBS_RE = re.compile(r'<<(\d+), "(\w+)">>')
@@ -132,21 +132,38 @@ def run(c, a):
     if len(obligs) < 50:
         raise Broken("too few obligations (%d)" % len(obligs))
     base = len(obligs)
-    if c.pid == "C12":
-        # variants: the leaf sits in the middle of an event batch ("tail"), in a blob that needs UTF-8 repair ("dirty"), and in
-        # a message whose other namespace fields hold an unmapped name ("fill") - none may change the result
-        more = []
-        for o in obligs:
-            through_events = "events" in o["path"]
-            for variant in ("tail", "dirty", "fill"):
-                if variant == "tail" and not through_events:
-                    continue
-                if variant == "dirty" and not o["inblob"]:
-                    continue
+    # variants: the leaf sits in the middle of an event batch ("tail"), in a blob that needs UTF-8 repair ("dirty"), in a
+    # JSON-encoded blob ("json"), in a message whose other namespace fields hold an unmapped name ("fill", names only) - none
+    # may change the result; for names also under a chained mapping a->b, b->c (exactly one step)
+    more = []
+    for o in obligs:
+        through_events = "events" in o["path"]
+        for variant in ("tail", "dirty", "json") + (("fill",) if c.pid == "C12" else ()):
+            if variant == "tail" and not through_events:
+                continue
+            if variant in ("dirty", "json") and not o["inblob"]:
+                continue
+            if variant == "dirty" and c.pid == "C14" and o["root"]["service"] != "admin":
+                continue     # WorkflowService messages are not touched by the search-attribute translator: the blob stays as it is
+            d = dict(o)
+            d.update(variant=variant, id=base + len(more) + 1)
+            more.append(d)
+        if c.pid == "C12":
+            for val in ("ns-a", "ns-b"):
                 d = dict(o)
-                d.update(variant=variant, id=base + len(more) + 1)
+                d.update(mode="chain", value=val, id=base + len(more) + 1)
                 more.append(d)
-        obligs = obligs + more
+    obligs = obligs + more
+    # every obligation also with ONLY the translator under test configured (namespace translation without search-attribute
+    # translation and vice versa are ordinary configurations; the other translator must not be what makes it work)
+    solo = []
+    for o in obligs:
+        if o.get("mode"):
+            continue
+        d = dict(o)
+        d.update(solo=True, id=len(obligs) + len(solo) + 1)
+        solo.append(d)
+    obligs = obligs + solo
     recs = run_obligations(c, obligs, "ob")
     out_of_scope = [r_ for r_ in recs if r_.get("scope")]
     recs = [r_ for r_ in recs if not r_.get("scope")]
